@@ -648,10 +648,10 @@ theorem matchTok_tok (D : List Dialect) (k : Kind) (μ : MState) (t : Token) :
   · exact matchLine_tok D k μ t _
 
 /-- result-only postcondition -/
-def TokSame (t : Token) (r : Bool × Token) : Prop := r.2.line = t.line ∧ r.2.lineNo = t.lineNo
+def TokKeep (t : Token) (r : Bool × Token) : Prop := r.2.line = t.line ∧ r.2.lineNo = t.lineNo
 
 theorem matchP_tok (D : List Dialect) (cap : Nat) (stop : Bool) (k : Kind) (t : Token) (c : Ctx)
-    (r : Bool × Token) (c' : Ctx) (h : run (matchP D cap stop k t) c = (.ok r, c')) : TokSame t r := by
+    (r : Bool × Token) (c' : Ctx) (h : run (matchP D cap stop k t) c = (.ok r, c')) : TokKeep t r := by
   rw [run_matchP] at h
   dsimp only at h
   have ht := matchTok_tok D k c.μ t
@@ -666,7 +666,7 @@ theorem matchP_tok (D : List Dialect) (cap : Nat) (stop : Bool) (k : Kind) (t : 
       exact ht
 
 theorem matchAny_tok (D : List Dialect) (cap : Nat) (stop : Bool) (ks : List Kind) (t : Token) (c : Ctx)
-    (r : Bool × Token) (c' : Ctx) (h : run (matchAny D cap stop ks t) c = (.ok r, c')) : TokSame t r := by
+    (r : Bool × Token) (c' : Ctx) (h : run (matchAny D cap stop ks t) c = (.ok r, c')) : TokKeep t r := by
   induction ks generalizing t c with
   | nil => rw [GV.matchAny, prun_pure] at h; cases h; exact ⟨rfl, rfl⟩
   | cons k ks ih =>
